@@ -402,6 +402,10 @@ func (r *rewriter) selectStmt(ss *ast.SelectStmt) {
 			continue
 		}
 		r.markComm(cc.Comm)
+		// a scheduling point as the first statement of every case body: several goroutines can be woken
+		// by one event (close, broadcast, timers with equal deadlines) and would otherwise run truly in
+		// parallel up to their next synchronisation operation
+		cc.Body = append([]ast.Stmt{&ast.ExprStmt{X: call("Yield", newSite(r.fset, cc.Pos(), "select-case"))}}, cc.Body...)
 	}
 	for _, cl := range ss.Body.List {
 		cc := cl.(*ast.CommClause)
